@@ -292,7 +292,7 @@ def check(ctx):
                         e.data["name"] not in VIEWS + ("timestamps",):
                     continue
                 v = e.data["value"]
-                ok = _indexed_by(v, selfp, e.data["name"], ids)
+                ok = _indexed_by(v, selfp, e.data["name"], ids, e.live)
                 ctx.ob("C08.3", e, ok is True,
                        f"{cq}.reduce_to_ids[{state_name(st)}]: "
                        f"{e.data['name']} := own {e.data['name']} selected "
@@ -304,16 +304,29 @@ def check(ctx):
                         f"IndexError (e.g. association with no matches no "
                         f"longer reaches its SyncException)"
                         if ok == "float" else
-                        f"{cq}.reduce_to_ids: {e.data['name']} is not the "
-                        f"selection of itself by the `ids` argument: "
-                        f"{fmt(v)}"),
+                        (f"{cq}.reduce_to_ids: on a fast path "
+                         f"{e.data['name']} becomes {ok[1]} although `ids` "
+                         f"was not compared element by element with that "
+                         f"range: an id list with repeated or unordered "
+                         f"entries that happens to span the block (pair end "
+                         f"ids, timestamp matches) selects other poses"
+                         if isinstance(ok, tuple) else
+                         f"{cq}.reduce_to_ids: {e.data['name']} is not the "
+                         f"selection of itself by the `ids` argument: "
+                         f"{fmt(v)}")),
                        key=f"C08.3:{cq}:{e.data['name']}:selection",
                        value=fmt(v))
                 # ... on every path on which the view exists
                 # (skipping it when `ids` is exactly 0..n-1 in order is the
                 # same selection: such a test is taken as failed)
+                # (two stores under complementary conditions — index list
+                # here, block slice there — are one unconditional store)
+                group = [x for x in res.of_kind("setattr")
+                         if x.data["base"] is selfp and
+                         x.data["name"] == e.data["name"]]
                 always = tm.fold(
-                    e.live, lambda t: False if _identity_ids(t, ids, selfp)
+                    tm.mk_or(*[x.live for x in group]),
+                    lambda t: False if _identity_ids(t, ids, selfp)
                     else None) is True
                 ctx.ob("C08.3", e, always,
                        f"{cq}.reduce_to_ids[{state_name(st)}]: "
@@ -805,7 +818,77 @@ def _same_ids(t: T, ids: T):
     return False
 
 
-def _indexed_by(v: T, selfp: T, attr: str, ids: T):
+def _indexed_by(v: T, selfp: T, attr: str, ids: T, live: T = None):
+    own = tm.attr(selfp, attr)
+    r0 = _indexed_by_plain(v, selfp, attr, ids)
+    if r0 is not False or not any(x.op == "ite" for x in v.walk()):
+        return r0
+    live = tm.TRUE if live is None else live
+    # a fast path next to the index selection (a slice for a contiguous
+    # block ...): every alternative is judged under the conditions that
+    # lead to it — a slice(a, b) of the own array is the selection by `ids`
+    # exactly where np.array_equal(ids, np.arange(a, b)) was established
+    import itertools
+    conds = []
+    for x in list(v.walk()) + list(live.walk()):
+        if x.op == "ite":
+            for a in tm.atoms(x.args[0]):
+                if not any(a is c for c in conds):
+                    conds.append(a)
+    if len(conds) > 12:
+        return False
+    verdict = True
+
+    def settle(t: T, env) -> T:
+        for _ in range(6):
+            nxt = tm.deep_select(t, lambda a: env.get(id(a)))
+            # `(None if .. else slice) is None` decides once the inner
+            # conditional is resolved
+            nxt = nxt.map(lambda z: const(
+                (z.args[1] is tm.NONE) == (z.args[0] == "Is")) if (
+                z.op == "cmp" and z.args[0] in ("Is", "IsNot") and
+                z.args[2] is tm.NONE and z.args[1].op != "ite" and (
+                    z.args[1] is tm.NONE or is_call_to(
+                        z.args[1], "builtins.slice"))) else None)
+            if nxt is t:
+                break
+            t = nxt
+        return t
+    for bits in itertools.product((True, False), repeat=len(conds)):
+        env = {id(c): b for c, b in zip(conds, bits)}
+        lv = settle(T("tuple", live), env).args[0]
+        if tm.fold(lv, lambda a: env.get(id(a))) is False:
+            continue              # this store does not run in that case
+        leaf = settle(v, env)
+        if any(x.op == "ite" for x in leaf.walk()):
+            return False
+        r1 = _indexed_by_plain(leaf, selfp, attr, ids)
+        if r1 is True:
+            continue
+        if r1 == "float":
+            verdict = "float"
+            continue
+        core = leaf
+        if is_call_to(core, "builtins.list") and len(core.args[1]) == 1:
+            core = core.args[1][0]
+        if core.op == "sub" and core.args[0] is own and is_call_to(
+                core.args[1], "builtins.slice") and \
+                len(core.args[1].args[1]) == 2:
+            a_, b_ = core.args[1].args[1]
+            rng = tm.call(tm.glob("numpy.arange"), (a_, b_), ())
+            est = [c for c, bit in zip(conds, bits) if bit and is_call_to(
+                c, "numpy.array_equal") and len(c.args[1]) == 2 and
+                rng in c.args[1] and any(
+                    _same_ids(z, ids) in (True, "float") or
+                    z is ids for z in c.args[1])]
+            if est:
+                continue
+            return ("slice", fmt(core)[:60])
+        return False
+    return verdict
+
+
+def _indexed_by_plain(v: T, selfp: T, attr: str, ids: T):
     own = tm.attr(selfp, attr)
     if v.op == "sub" and v.args[0] is own:
         return _same_ids(v.args[1], ids)
